@@ -7,4 +7,5 @@ EXES = [
     {"name": "events", "sources": ["harness/events.cpp"]},
     {"name": "scopes", "sources": ["harness/scopes.cpp"]},
     {"name": "futures", "sources": ["harness/futures.cpp"]},
+    {"name": "sched", "sources": ["harness/sched.cpp"]},
 ]
